@@ -6,6 +6,7 @@
 import DtnVerif.Lemmas.TcpclSys
 import DtnVerif.Lemmas.TcpclSysLift
 import DtnVerif.Lemmas.TcpclLive
+import DtnVerif.Lemmas.TcpclCausalSys
 namespace DtnVerif
 namespace Tcpcl
 
@@ -241,6 +242,57 @@ theorem C01_quiescent_success (cfgA cfgB : Cfg) (sch : List SysEv)
     exact drained_success s.a s.b s.toB s.toA hi.ia hi.ib wa hw.1 hw.2 hi.wireB hi.wireA hd h1 h2 h3 qa.1 qa.2 sa rb hn
   · intro hd h1 h2 h3 hn
     exact drained_success s.b s.a s.toA s.toB hi.ib hi.ia wb hw.2 hw.1 hi.wireA hi.wireB hd h1 h2 h3 qb.1 qb.2 sb ra hn
+
+/-- the causality invariant holds at the start of the two-endpoint system -/
+private theorem cs_init (cfgA cfgB : Cfg)
+    (a1 : 0 < cfgA.segInit) (a2 : cfgA.privExt = false) (a3 : 0 < cfgA.segMru)
+    (b1 : 0 < cfgB.segInit) (b2 : cfgB.privExt = false) (b3 : 0 < cfgB.segMru) : CS (initSys cfgA cfgB) := by
+  refine ⟨sysInv_init cfgA cfgB a1 a2 a3 b1 b2 b3, (QInv.init cfgA).step _ _, (QInv.init cfgB).step _ _,
+    ackSeq_step _ _ (rxInv_init cfgA) (ackSeq_init cfgA), ackSeq_step _ _ (rxInv_init cfgB) (ackSeq_init cfgB), ?_, ?_⟩
+  · exact ci_step_local _ _ (by intro c h; cases h) a2 (by simp [nAcks, acksOf]) (ci_init cfgA)
+  · exact ci_step_local _ _ (by intro c h; cases h) b2 (by simp [nAcks, acksOf]) (ci_init cfgB)
+
+/-- **Two faithful endpoints never reject each other, and acknowledgements stay aligned.** For every
+    schedule of the two-endpoint system: neither endpoint ever emits a MSG_REJECT; the acknowledgements
+    each side has processed answer, one for one and in order, the first segments that side has emitted;
+    and every emitted segment not yet answered belongs to a transfer still awaiting its acknowledgement
+    or still being segmented. -/
+theorem C01_no_reject_sys (cfgA cfgB : Cfg) (sch : List SysEv)
+    (a1 : 0 < cfgA.segInit) (a2 : cfgA.privExt = false) (a3 : 0 < cfgA.segMru)
+    (b1 : 0 < cfgB.segInit) (b2 : cfgB.privExt = false) (b3 : 0 < cfgB.segMru)
+    (hwf : ∀ pre, pre <+: sch → SysWF (runSys (initSys cfgA cfgB) pre))
+    (hs : ∀ ev ∈ sch, ev.sendOK) :
+    let s := runSys (initSys cfgA cfgB) sch
+    (∀ m ∈ s.a.emitted, m.isRej = false) ∧ (∀ m ∈ s.b.emitted, m.isRej = false)
+    ∧ (acksOf s.a.processed).map ackInfo <+: segInfo s.a.emitted
+    ∧ (acksOf s.b.processed).map ackInfo <+: segInfo s.b.emitted
+    ∧ CI s.a ∧ CI s.b := by
+  intro s
+  have hcs : CS s := cs_run sch _ (cs_init cfgA cfgB a1 a2 a3 b1 b2 b3) hwf hs
+  obtain ⟨alA, alB⟩ := hcs.aligned (hwf sch (List.prefix_refl _))
+  have nr : ∀ e : Ep, CI e → ∀ m ∈ e.emitted, m.isRej = false := by
+    intro e hc m hm
+    have := hc.norej
+    simp only [rejsOf, List.filter_eq_nil_iff] at this
+    simpa using this m hm
+  exact ⟨nr _ hcs.ca, nr _ hcs.cb, alA, alB, hcs.ca, hcs.cb⟩
+
+/-- **Success at quiescence, unconditionally.** When both directions have drained, every bundle ever
+    queued at A has been reported `success` and A's send queue is empty (and symmetrically). -/
+theorem C01_quiescent_all_success (cfgA cfgB : Cfg) (sch : List SysEv)
+    (a1 : 0 < cfgA.segInit) (a2 : cfgA.privExt = false) (a3 : 0 < cfgA.segMru)
+    (b1 : 0 < cfgB.segInit) (b2 : cfgB.privExt = false) (b3 : 0 < cfgB.segMru)
+    (hwf : ∀ pre, pre <+: sch → SysWF (runSys (initSys cfgA cfgB) pre))
+    (hs : ∀ ev ∈ sch, ev.sendOK) :
+    let s := runSys (initSys cfgA cfgB) sch
+    (Drained s.a s.b s.toB → s.b.txBuf = [] → s.b.connBuf = [] → s.toA = [] →
+        (∀ it ∈ s.a.sendLog, it.tid ∈ s.a.successLog) ∧ s.a.txMap = [])
+    ∧ (Drained s.b s.a s.toA → s.a.txBuf = [] → s.a.connBuf = [] → s.toB = [] →
+        (∀ it ∈ s.b.sendLog, it.tid ∈ s.b.successLog) ∧ s.b.txMap = []) := by
+  intro s
+  obtain ⟨na, nb, _⟩ := C01_no_reject_sys cfgA cfgB sch a1 a2 a3 b1 b2 b3 hwf hs
+  obtain ⟨ha, hb⟩ := C01_quiescent_success cfgA cfgB sch a1 a2 a3 b1 b2 b3 hwf hs
+  exact ⟨fun hd h1 h2 h3 => ha hd h1 h2 h3 na, fun hd h1 h2 h3 => hb hd h1 h2 h3 nb⟩
 
 /-! ### non-vacuity: a concrete two-endpoint run meeting every hypothesis and delivering a bundle -/
 
